@@ -62,6 +62,72 @@ let rec sx_of (e : expr) : string =
   | EAssign (n, v) -> l ["assign"; sc n; sx_of v]
   | EArrAssign (c, i, v) -> l ["arrassign"; sx_of c; sx_of i; sx_of v]
   | EMemAssign (o, m, v) -> l ["memassign"; sx_of o; sc m; sx_of v]
+(* statements *)
+let opt_expr = function A "-" -> None | x -> Some (expr_of x)
+let dim_of = function L [A "none"] -> ANone | L [A "lit"; A t] -> ALit (cs t) | L [A "expr"; e] -> AExpr (expr_of e) | _ -> failwith "dim"
+let ty_of = function
+  | L (A "ty" :: b :: dims) ->
+    let base = (match b with L [A "cls"; A n] -> (match String.split_on_char '.' n with f :: more -> BCls (cs f, List.map cs more) | [] -> failwith "cls") | A p -> BPrim (List.assoc p prims) | _ -> failwith "base") in
+    { tbase_of = base; tdims = List.map dim_of dims }
+  | _ -> failwith "ty"
+let b01 = function "1" -> true | _ -> false
+let rec stmt_of (x : sx) : stmt =
+  match x with
+  | L (A "block" :: ss) -> SBlock (List.map stmt_of ss)
+  | L [A "decl"; A f; A t; ty; A n; i] -> SDecl (b01 f, b01 t, ty_of ty, cs n, opt_expr i)
+  | L [A "return"; e] -> SReturn (opt_expr e)
+  | L [A "if"; c; L (A "block" :: th); A "-"] -> SIf (expr_of c, List.map stmt_of th, None)
+  | L [A "if"; c; L (A "block" :: th); L (A "block" :: el)] -> SIf (expr_of c, List.map stmt_of th, Some (List.map stmt_of el))
+  | L [A "for"; i; c; st; L (A "block" :: b)] ->
+    let init = (match i with
+      | L [A "none"] -> FNone
+      | L [A "fdecl"; A f; ty; A n; e] -> FDecl (b01 f, ty_of ty, cs n, opt_expr e)
+      | L [A "fexpr"; e] -> FExpr (expr_of e)
+      | _ -> failwith "finit") in
+    SFor (init, expr_of c, expr_of st, List.map stmt_of b)
+  | L [A "while"; c; L (A "block" :: b)] -> SWhile (expr_of c, List.map stmt_of b)
+  | L [A "echo"; e] -> SEcho (expr_of e) | L [A "reset"; e] -> SReset (expr_of e)
+  | L [A "smeasure"; e] -> SMeasure (expr_of e) | L [A "destroy"; e] -> SDestroy (expr_of e)
+  | L [A "tern"; c; a; b] -> STern (expr_of c, stmt_of a, stmt_of b)
+  | L [A "sassign"; A n; e] -> SAssign (cs n, expr_of e)
+  | L [A "sexpr"; e] -> SExpr (expr_of e)
+  | _ -> failwith "bad stmt sexp"
+let sx_opt = function None -> "-" | Some e -> sx_of e
+let sx_dim = function ANone -> "(none)" | ALit t -> "(lit " ^ sc t ^ ")" | AExpr e -> "(expr " ^ sx_of e ^ ")"
+let sx_ty t = "(ty " ^ (match t.tbase_of with BPrim p -> prim_s p | BCls (n, more) -> "(cls " ^ String.concat "." (sc n :: List.map sc more) ^ ")") ^ String.concat "" (List.map (fun d -> " " ^ sx_dim d) t.tdims) ^ ")"
+let b10 b = if b then "1" else "0"
+let rec sx_stmt (s : stmt) : string =
+  let l xs = "(" ^ String.concat " " xs ^ ")" in
+  let blk ss = l ("block" :: List.map sx_stmt ss) in
+  match s with
+  | SBlock ss -> blk ss
+  | SDecl (f, t, ty, n, i) -> l ["decl"; b10 f; b10 t; sx_ty ty; sc n; sx_opt i]
+  | SReturn e -> l ["return"; sx_opt e]
+  | SIf (c, th, el) -> l ["if"; sx_of c; blk th; (match el with None -> "-" | Some e -> blk e)]
+  | SFor (i, c, st, b) ->
+    let si = (match i with FNone -> "(none)" | FDecl (f, ty, n, e) -> l ["fdecl"; b10 f; sx_ty ty; sc n; sx_opt e] | FExpr e -> l ["fexpr"; sx_of e]) in
+    l ["for"; si; sx_of c; sx_of st; blk b]
+  | SWhile (c, b) -> l ["while"; sx_of c; blk b]
+  | SEcho e -> l ["echo"; sx_of e] | SReset e -> l ["reset"; sx_of e] | SMeasure e -> l ["smeasure"; sx_of e] | SDestroy e -> l ["destroy"; sx_of e]
+  | STern (c, a, b) -> l ["tern"; sx_of c; sx_stmt a; sx_stmt b]
+  | SAssign (n, e) -> l ["sassign"; sc n; sx_of e]
+  | SExpr e -> l ["sexpr"; sx_of e]
+let map_opt f = function None -> None | Some e -> Some (f e)
+let map_ty f t = { t with tdims = List.map (function AExpr e -> AExpr (f e) | d -> d) t.tdims }
+let rec map_stmt (f : expr -> expr) (s : stmt) : stmt =
+  match s with
+  | SBlock ss -> SBlock (List.map (map_stmt f) ss)
+  | SDecl (a, b, ty, n, i) -> SDecl (a, b, map_ty f ty, n, map_opt f i)
+  | SReturn e -> SReturn (map_opt f e)
+  | SIf (c, th, el) -> SIf (f c, List.map (map_stmt f) th, map_opt (List.map (map_stmt f)) el)
+  | SFor (i, c, st, b) ->
+    let i' = (match i with FNone -> FNone | FDecl (a, ty, n, e) -> FDecl (a, map_ty f ty, n, map_opt f e) | FExpr e -> FExpr (f e)) in
+    SFor (i', f c, f st, List.map (map_stmt f) b)
+  | SWhile (c, b) -> SWhile (f c, List.map (map_stmt f) b)
+  | SEcho e -> SEcho (f e) | SReset e -> SReset (f e) | SMeasure e -> SMeasure (f e) | SDestroy e -> SDestroy (f e)
+  | STern (c, a, b) -> STern (f c, map_stmt f a, map_stmt f b)
+  | SAssign (n, e) -> SAssign (n, f e)
+  | SExpr e -> SExpr (f e)
 let tok_text (t : tok) : string =
   match t with
   | KLit (_, t) -> sc t | KId n -> sc n | KNull -> "null" | KThis -> "this" | KSuper -> "super" | KMeasure -> "measure" | KNew -> "new"
@@ -81,6 +147,30 @@ let () =
         | Some (_, _) -> "model-rest"
         | None -> "model-none" in
       Printf.printf "SRC %s TREE %s STRIP %s MODEL %s\n" (hex src) (sx_of e') (sx_of (strip e')) m
+    end
+    else if String.length line > 6 && String.sub line 0 6 = "stree " then begin
+      (* a statement tree: render it with the model, parse the rendering back with the model *)
+      let s = map_stmt add_parens (stmt_of (parse_sx (String.sub line 6 (String.length line - 6)))) in
+      let toks = render_stmt s in
+      let src = String.concat " " (List.map tok_text toks) in
+      let m = match parse_stmt (toks @ [KRBrace]) with
+        | Some (s2, [KRBrace]) -> sx_stmt s2
+        | Some (_, _) -> "model-rest"
+        | None -> "model-none" in
+      Printf.printf "SSRC %s TREE %s MPARSE %s\n" (hex src) (sx_stmt s) m
+    end
+    else if String.length line > 5 && String.sub line 0 5 = "smut " then begin
+      (* every single-token deletion of a rendered statement: does the model's statement parser accept it as one statement? *)
+      let s = map_stmt add_parens (stmt_of (parse_sx (String.sub line 5 (String.length line - 5)))) in
+      let toks = render_stmt s in
+      let n = List.length toks in
+      for i = 0 to n - 1 do
+        let l = List.filteri (fun j _ -> j <> i) toks in
+        let src = String.concat " " (List.map tok_text l) in
+        let ok = match parse_stmt (l @ [KRBrace]) with Some (_, [KRBrace]) -> "accept" | _ -> "reject" in
+        Printf.printf "SMUT %s %s\n" (hex src) ok
+      done;
+      print_endline "END"
     end
     else if String.length line > 4 && String.sub line 0 4 = "mut " then begin
       (* every single-token deletion, duplication and adjacent swap of the rendered tree: does the model parser accept? *)
